@@ -915,9 +915,6 @@ def gen_docs():
 
 def gen_help():
     rows = help_options()
-    body = ";\n   ".join("(%s, %s, %s)  (* %s *)" % (S(n), "true" if no else "false", "true" if val else "false", safe(n))
-                         for n, no, val in rows)
-    # the trailing comment of the last row must not swallow the bracket
     body = ";\n   ".join("(%s, %s, %s)" % (S(n), "true" if no else "false", "true" if val else "false") for n, no, val in rows)
     return ["(* option lines of runner.HELP: (name without --, documented as --[no-]name, documented with =VALUE) *)",
             "(* %s *)" % safe(" ".join(n for n, _, _ in rows)),
